@@ -386,6 +386,20 @@ def scn_faultfree(ctx):
             # so the new callable very often has the id() of the dead one
             cobj = None
             cobj = ConstCloud(float(kind[5:]))
+            if last_cloud_id is not None and id(cobj) != last_cloud_id:
+                # something of the finished call still held the old callable (a cycle): collect, then
+                # keep creating callables, as a long session does, until the freed slot comes round
+                import gc
+
+                gc.collect()
+                keep = [cobj]
+                for _ in range(4000):
+                    c2 = ConstCloud(float(kind[5:]))
+                    if id(c2) == last_cloud_id:
+                        cobj = c2
+                        break
+                    keep.append(c2)
+                del keep
             ctx.probes["cloud_object_recycled_address"] += int(id(cobj) == last_cloud_id)
             last_cloud_id = id(cobj)
             res, exc, fired, idx, world, _ = _one_batch(ctx, tier, det_alt, obj, kind, False, tag, cloud_obj=cobj)
@@ -487,6 +501,58 @@ def scn_real(ctx):
     ctx.describe.update(real_scheduler=name, workers=nw, N=n, cloud=kind, det_alt=det_alt, poison_pos=ppos)
     ctx.probes[f"real_{name}"] += 1
 
+    # one run in two: the caller has CUSTOMISED the evaluator — edited some of its tables in
+    # place through the instance (a hazier aerosol profile, another ozone column).  The reference
+    # is then the one-at-a-time evaluation on that same object, and the batch — whose worker
+    # processes receive a pickled copy of the object — must agree with it.
+    custom = None
+    if not poison and ch.draw(2, "customised_evaluator"):
+        probe_obj = CphotAng(det_alt)
+        names = sorted(a for a in dir(probe_obj) if not a.startswith("_") and isinstance(getattr(probe_obj, a, None), np.ndarray)
+                       and getattr(probe_obj, a).dtype.kind == "f" and getattr(probe_obj, a).size > 1 and getattr(probe_obj, a).flags.writeable)
+        custom = [(a, (1.0, 0.9, 1.1)[ch.draw(3, "table_scale")]) for a in names]
+        custom = [(a, f) for a, f in custom if f != 1.0]
+        ctx.probes["customised_evaluator"] += 1
+        ctx.describe["customised_tables"] = custom
+        del probe_obj
+
+    custom_obj = []
+
+    def make():
+        # the customised evaluator is ONE object: the reference and the batch both use it
+        if custom_obj:
+            return custom_obj[0]
+        o = CphotAng(det_alt)
+        if custom:
+            for a, f in custom:
+                arr = getattr(o, a)
+                arr *= arr.dtype.type(f)  # in place, through the instance
+            custom_obj.append(o)
+        return o
+
+    override = None
+    if custom:
+        ref_obj = make()
+        st = np.random.get_state()
+        np.random.seed(20240917)
+        try:
+            override = {}
+            for k in range(n):
+                ev = [np.float64(a[k]) for a in args]
+                try:
+                    r = ref_obj.run(*ev, _cloud(kind))
+                    override[k] = ("ok", float(np.float64(r[0])), float(np.float64(r[1])))
+                except BaseException as e:  # noqa: BLE001
+                    override[k] = ("exc", type(e).__name__)
+        finally:
+            np.random.set_state(st)
+        if any(v[0] == "exc" for v in override.values()):
+            # the edited tables make an event fail one at a time: not a comparison this run can make
+            ctx.probes["customised_evaluator_rejects_an_event"] += 1
+            ctx.log("real: customised evaluator rejects an event one at a time; run skipped")
+            return
+        del ref_obj
+
     # spawned workers are separate interpreters with their own string-hash seed: give them one
     # that differs from this interpreter's (dask would otherwise pin 6640 or let them inherit)
     child_hash = str(5000 + ch.draw(1000, "worker_hashseed"))
@@ -508,14 +574,14 @@ def scn_real(ctx):
                 client = Client(processes=False, n_workers=1, threads_per_worker=nw, dashboard_address=None)
                 try:
                     try:
-                        return CphotAng(det_alt)(*args, _cloud(kind)), None
+                        return make()(*args, _cloud(kind)), None
                     except BaseException as e:  # noqa: BLE001
                         return None, e
                 finally:
                     client.close()
             with dask.config.set(scheduler=name, num_workers=nw, **{"multiprocessing.initializer": env.child_init}):
                 try:
-                    return CphotAng(det_alt)(*args, _cloud(kind)), None
+                    return make()(*args, _cloud(kind)), None
                 except BaseException as e:  # noqa: BLE001
                     return None, e
         finally:
@@ -534,7 +600,7 @@ def scn_real(ctx):
         if exc is not None:
             return Violation("c10.raised_without_fault", f"[real {name} x{nw}] batch of {n} raised {type(exc).__name__}: {str(exc)[:200]}", sig="CphotAng.__call__")
         try:
-            _compare("c10.real", res, det_alt, kind, tier, idx)
+            _compare("c10.real", res, det_alt, kind, tier, idx, override)
         except Violation as v:
             v.message = f"[real {name} x{nw}] " + v.message
             return v
